@@ -220,6 +220,25 @@ def cases(ctx: core.Ctx):
             if f in ("pgettext", "npgettext") or (f == "t" and idx % 6 == 0):
                 c["context"] = rng.choice(["ctx", "", "%"])
             yield c
+    # count / plural / context as message variables, in every combination the t filter accepts (independent of the enumeration order above:
+    # picking options by position in the product ties what is covered to the size of the alphabet)
+    for a, b in itertools.product(["", "Hello ", "<b>", "("], ["%(count)s", "%(count)s of %(n)s", "%(you)s has %(count)s", "%(context)s|%(count)s", "%(plural)s|%(count)s"]):
+        msg = a + b
+        for has_plural, has_count, has_ctx, cnt in itertools.product((False, True), (False, True), (False, True), (0, 1, 2, "2")):
+            idx += 1
+            if idx % ctx.nshards != ctx.shard:
+                continue
+            c = {"kind": "filter", "filter": "t", "msg": msg, "literal": bool(idx % 2), "async": idx % 7 == 0, "vars": {"you": "Sue", "n": 3}}
+            if has_plural:
+                c["plural"] = "%(count)s items for %(you)s"
+            if has_count:
+                c["count"] = V.enc(cnt)
+            if has_ctx:
+                c["context"] = "ctx"
+            c["outer"] = idx % 3 == 0
+            if ("%(context)s" in msg and has_ctx) or "%(plural)s" in msg or (not has_count and "%(count)s" in msg and c["outer"] is False and False):
+                continue  # (whether the selecting arguments themselves are message variables is not settled)
+            yield c
     for n in range(1, L + 1):
         for toks in itertools.product(TAG_TOKENS, repeat=n):
             idx += 1
